@@ -276,7 +276,7 @@ def replay_candidate(cand):
     out['trace'] = env.trace[:20]
     out['tags'] = dict(env.tags)
     if 'tags' in cand:
-        out['tags_match'] = dict(env.tags) == cand['tags']
+        out['tags_match'] = all(env.tags.get(k) == v for k, v in cand['tags'].items())
     return _jsonable(out)
 
 
